@@ -154,8 +154,6 @@ impl Reader {
             r is Err ==> final(buf)@ == old(buf)@ && old(self).avail.len() == 0 && final(self).avail == old(self).avail,
     { unimplemented!() }
 }
-#[verifier::external_body]
-pub fn vx_str_contains(s: &String, pat: &str) -> (r: bool) { s.contains(pat) }
 impl io::Error {
     #[verifier::external_body]
     pub fn to_string(&self) -> (r: String) { String::new() }
@@ -224,11 +222,7 @@ pub use std::sync::Arc;
 pub mod md5 { pub struct Digest; #[verifier::external_body] pub fn compute(b: &[u8]) -> Digest { Digest } }
 
 #[verifier::external_body]
-pub fn vx_lossy_string(b: &[u8]) -> (r: String) { String::new() }
-#[verifier::external_body]
-pub fn vx_string_from(s: &str) -> (r: String) { s.to_string() }
-#[verifier::external_body]
-pub fn vx_parse_u8(s: &String) -> (r: std::result::Result<u8, ()>) { unimplemented!() }
+pub fn vx_parse_u8(s: &&String) -> (r: std::result::Result<u8, ()>) { unimplemented!() }
 #[verifier::external_body]
 pub fn vx_string_ne_str(a: &String, b: &str) -> (r: bool) ensures r == (a@ != b@) { unimplemented!() }
 #[verifier::external_body]
